@@ -43,3 +43,65 @@ Definition arr_transform_leaves (a b : spec) : res spec :=
       end
   | _, _ => Err InternalError
   end.
+
+(* ---------- f_leaf returning a DIFFERENT treespec for every leaf ----------
+   The same forward pass when the leaf function answers the i-th call with the i-th treespec of a list
+   (a stateful Python function): the i-th leaf is replaced by a copy of the i-th inner array and pushes
+   that treespec's own (num_leaves, num_nodes).  The option checks run per transformed treespec, in call
+   order: none_is_leaf must agree with the outer's; the first non-empty namespace met (starting from the
+   outer's) becomes the common one and every later non-empty namespace must equal it. *)
+Definition root_leaves (b : list node) : nat := match rev b with r :: _ => nleaves r | [] => O end.
+
+Fixpoint tr_gen (ns : list node) (inners : list (list node)) (out : list node) (stack : list (nat * nat))
+  : res (list node * list (nat * nat) * list (list node)) :=
+  match ns with
+  | [] => Ok (out, stack, inners)
+  | n :: ns' =>
+    if is_leaf_node n then
+      match inners with
+      | [] => Err InternalError                       (* outside the model: one answer per leaf is supplied *)
+      | b :: inners' => tr_gen ns' inners' (out ++ b) ((root_leaves b, length b) :: stack)
+      end
+    else if Nat.ltb (length stack) (narity n) then Err InternalError
+    else
+      let popped := firstn (narity n) stack in
+      let nl := sum_fst popped in
+      let nn := S (sum_snd popped) in
+      tr_gen ns' inners (out ++ [patch n nn nl]) ((nl, nn) :: skipn (narity n) stack)
+  end.
+
+Fixpoint tr_opts (nil0 : bool) (common : Z) (bs : list spec) : res Z :=
+  match bs with
+  | [] => Ok common
+  | b :: bs' =>
+    if negb (Bool.eqb nil0 (snil b)) then Err ValueError
+    else if Z.eqb (sns b) 0 then tr_opts nil0 common bs'
+    else if Z.eqb common 0 then tr_opts nil0 (sns b) bs'
+    else if Z.eqb (sns b) common then tr_opts nil0 common bs'
+    else Err ValueError
+  end.
+
+Definition sum_Z (l : list Z) : Z := fold_right Z.add 0%Z l.
+
+(* transform(None, f_leaf) where the i-th call of f_leaf returns the i-th element of bs *)
+Definition arr_transform_gen (a : spec) (bs : list spec) : res spec :=
+  match rev (trav a) with
+  | aroot :: _ =>
+    if negb (Nat.eqb (length bs) (nleaves aroot)) then Err InternalError   (* outside the model *)
+    else
+      do ns <- tr_opts (snil a) (sns a) bs ;;
+      do r <- tr_gen (trav a) (map trav bs) [] [] ;;
+      let '(out, stack, _) := r in
+      match stack, rev out with
+      | [_], root :: _ =>
+        (* GetNumLeaves() + num_extra_leaves, GetNumNodes() + num_extra_nodes, signed *)
+        let xl := (Z.of_nat (nleaves aroot) + sum_Z (map (fun b => Z.of_nat (root_leaves (trav b)) - 1) bs))%Z in
+        let xn := (Z.of_nat (length (trav a)) + sum_Z (map (fun b => Z.of_nat (length (trav b)) - 1) bs))%Z in
+        if negb (Z.eqb (Z.of_nat (nleaves root)) xl) then Err InternalError
+        else if negb (Z.eqb (Z.of_nat (nnodes root)) xn) then Err InternalError
+        else if negb (Nat.eqb (nnodes root) (length out)) then Err InternalError
+        else Ok {| trav := out; snil := snil a; sns := ns |}
+      | _, _ => Err InternalError
+      end
+  | [] => Err InternalError
+  end.
